@@ -112,8 +112,11 @@ class UpdateAttributesEffectiveChoice(HandlerInterface):
                 attrs.append(attr)
             else:
                 existing = attrs[pos]
-                assert existing.restrictions.min_occurs is not None
-                assert existing.restrictions.max_occurs is not None
+                # Attrs built from wsdl messages carry no occurrences, once is implied
+                if existing.restrictions.min_occurs is None:
+                    existing.restrictions.min_occurs = 1
+                if existing.restrictions.max_occurs is None:
+                    existing.restrictions.max_occurs = 1
 
                 existing.restrictions.min_occurs += attr.restrictions.min_occurs or 0
                 existing.restrictions.max_occurs += attr.restrictions.max_occurs or 0
